@@ -13,16 +13,18 @@ ALL_FUNCTIONS = ("C04",)
 
 
 def select(pid, m):
-    fns, mods, clauses = [], [], []
+    fns, mods, clauses, und = [], [], [], []
     for key, f in m["functions"].items():
-        if f["mode"] in ("skip", "assumed"):
+        if f["mode"] == "undecided" and (pid in f.get("all_tags", []) or pid in ALL_FUNCTIONS):
+            und.append((key, f.get("reason", "")))
+        if f["mode"] in ("skip", "assumed", "undecided"):
             continue
         mine = [c for c in f.get("clauses", []) if pid in m["clauses"][c]["tags"]]
         if mine or pid in ALL_FUNCTIONS or pid in f.get("nopanic", []):
             fns.append(key)
             mods.append(f["module"])
             clauses += mine
-    return {"functions": fns, "modules": mods, "clauses": clauses}
+    return {"functions": fns, "modules": mods, "clauses": clauses, "undecided_functions": und}
 
 
 def known_findings():
@@ -160,8 +162,10 @@ def report(pid, tier, seed, m, sel, res, findings, cmd, t0, outdir):
         lines.append("VIOLATION property=%s replay=%s no-failing-input-found" % (pid, rpath))
         for f in new_viol[:40]:
             lines.append("  failed obligation: %s in %s: %s" % (f["clause"] or "built-in", f["fn"], f["msg"]))
-    elif undecided:
+    elif undecided or sel.get("undecided_functions"):
         rc = 2
+        for key, why in sel.get("undecided_functions", []):
+            lines.append("UNDECIDED property=%s: function %s could not be brought into the verifier's input (%s); its contract is assumed for callers" % (pid, key, why))
         for f in undecided[:10]:
             lines.append("UNDECIDED property=%s: %s in %s (%s)" % (pid, f["msg"], f["fn"], f["kind"]))
     for f in others[:5]:
